@@ -41,7 +41,7 @@ def config_list(seed, tier):
     def add(name, n):
         out.append(dict(runname=name, basis=None, compl=n, nfun=configs.nfun(S[name], n)))
     if tier == 'quick':
-        for name, n in (('core_maths', 3), ('core_maths', 4), ('osc_maths', 3), ('base_e_maths', 3), ('ext_maths', 2)):
+        for name, n in (('core_maths', 3), ('core_maths', 4), ('osc_maths', 3), ('base_e_maths', 3), ('ext_maths', 2), ('core_maths', 5)):
             add(name, n)
         nsub, cap = 3, 120
     else:
@@ -168,6 +168,8 @@ def main(tier, seed, budget):
         prof_jobs = []
         for c in cfgs:
             Ps = (1, 2) if quick else (1, 2, 3)
+            if quick and c['nfun'] > 400:
+                Ps = (1,)
             if c['nfun'] <= 70:
                 # small libraries also with many ranks: tiny and empty shares, functions of one class spread over all ranks
                 Ps = Ps + ((5,) if quick else (5, 8, 11))
@@ -347,11 +349,36 @@ def main(tier, seed, budget):
                 for job, out in pool.imap(lj, timeout=600):
                     handle(job, out, pending_min)
                 stats['line_sweep'].append(dict(config=list(sweep_key), source_lines=len(lines), plans_run=stats['worlds'] - n0, complete=True))
+        def rare_line_sweep(key, base_key, variants):
+            """Source lines reached inside timed blocks of `key` but never in the smallest configuration (e.g. the
+            permutation search, which needs >= 2 parameters and a second round): fire before such a line in a random half of
+            the blocks that reach it - so that some proposals are interrupted and later ones are recorded."""
+            if key not in profiles or base_key not in profiles:
+                return
+            pr = profiles[key][0]
+            seen = {L for e in profiles[base_key][0] for L in e[5]}
+            lines = sorted({L for e in pr for L in e[5]} - seen)
+            lj = []
+            for L in lines:
+                blocks = [e[0] for e in pr if L in e[5]]
+                for v in range(variants):
+                    rng = base.rng_for(seed, 'c15-rare', key, L, v)
+                    a = base_args(cfg_by[key[:2]], key[2], base.run_seed(seed, 500000 + L * 10 + v))
+                    a['plan'] = {'0': {str(b): ['line', L, 1] for b in blocks if rng.random() < 0.5}}
+                    a['max_steps'] = 40 * prof_steps[key] + 5000
+                    lj.append(dict(fn=JOB, args=a, timeout=900))
+            n0 = stats['worlds']
+            for job, out in pool.imap(lj, timeout=900):
+                handle(job, out, pending_min)
+            stats['line_sweep'].append(dict(config=list(key), kind='lines not reached by the smallest configuration, random half of the blocks',
+                                            source_lines=len(lines), plans_run=stats['worlds'] - n0, complete=False))
         sweeps = [(('core_maths', 3, 1), 320 if quick else 0)]
         if not quick:
             sweeps += [(('core_maths', 4, 1), 0), (('osc_maths', 3, 1), 600), (('base_e_maths', 3, 1), 600)]
         for sk, cap in sweeps:
             run_sweeps(sk, cap)
+        rare_line_sweep(('core_maths', 5, 1), ('core_maths', 3, 1), 2 if quick else 6)
+        rare_line_sweep(('core_maths', 4, 1), ('core_maths', 3, 1), 2 if quick else 6)
         # ---- seeded sampling of fault plans ----
         if keys:
             deadline = time.time() + explore_s
